@@ -23,6 +23,7 @@ import (
 	"runtime"
 	"sort"
 	"syscall"
+	"time"
 	"unsafe"
 )
 
@@ -647,6 +648,89 @@ func markSelfDeadlockChan() {
 	// by the runtime (timers) or by a goroutine of the library, so nothing is
 	// concluded here; the caller blocks for real and the wall-clock watchdog is the
 	// backstop.
+}
+
+// ---------------------------------------------------------------------------
+// Clock seam.  The instrumenter rewrites time.Now / Since / Until / Sleep / After
+// in library code to these.  While a simulation is active the clock is the one the
+// harness sets (SetNow); it never advances by itself.
+
+var simClock int64 // unix nanoseconds; only touched in norace functions by the token holder
+var clockReads uint64
+
+// SetNow sets the simulated clock (harness, token holder only).
+//
+//go:norace
+//go:noinline
+func SetNow(unixNano int64) { simClock = unixNano }
+
+//go:norace
+//go:noinline
+func simNow() (int64, bool) {
+	if !st.active {
+		return 0, false
+	}
+	clockReads++
+	return simClock, true
+}
+
+//go:norace
+//go:noinline
+func simAdvance(d int64) { simClock += d }
+
+// ClockReads reports how often the library read the simulated clock.
+//
+//go:norace
+//go:noinline
+func ClockReads() uint64 { return clockReads }
+
+// Now replaces time.Now.
+func Now() time.Time {
+	if ns, ok := simNow(); ok {
+		return time.Unix(0, ns).UTC()
+	}
+	return time.Now()
+}
+
+// Since replaces time.Since.
+func Since(t time.Time) time.Duration {
+	if ns, ok := simNow(); ok {
+		return time.Unix(0, ns).Sub(t)
+	}
+	return time.Since(t)
+}
+
+// Until replaces time.Until.
+func Until(t time.Time) time.Duration {
+	if ns, ok := simNow(); ok {
+		return t.Sub(time.Unix(0, ns))
+	}
+	return time.Until(t)
+}
+
+// Sleep replaces time.Sleep: simulated time passes, real time does not.
+func Sleep(d time.Duration) {
+	if _, ok := simNow(); ok {
+		if d > 0 {
+			simAdvance(int64(d))
+		}
+		Yield(SiteIO + 9)
+		return
+	}
+	time.Sleep(d)
+}
+
+// After replaces time.After: the simulated clock jumps by d and the channel is ready.
+func After(d time.Duration) <-chan time.Time {
+	if _, ok := simNow(); ok {
+		if d > 0 {
+			simAdvance(int64(d))
+		}
+		ch := make(chan time.Time, 1)
+		ch <- Now()
+		return ch
+	}
+	return time.After(d)
 }
 
 // DeadlockHook is called when every unfinished task is blocked.  The harness
